@@ -13,11 +13,12 @@ Templates use markers resolved by `resolve()`:
   {+X}  X printed by fparser, optional in the source (e.g. '::', 'kind = ')
   {-X}  X accepted in the source but not printed (empty dummy-arg list)
   {,}   comma printed by fparser, optional in the source (FORMAT / and :)
+  {*X}  X printed by fparser, never written in this source form (e.g. both keywords of 'character(10, ck)')
 """
 import re
 from vf import exprs as X
 
-_MARK = re.compile(r"\{([~+\-,])([^}]*)\}")
+_MARK = re.compile(r"\{([~+\-,*])([^}]*)\}")
 
 INTRINSICS_1 = ["sin", "cos", "abs", "sqrt", "exp", "int", "real", "nint", "tan", "log"]
 INTRINSICS_2 = ["mod", "atan2", "sign", "dim"]
@@ -144,11 +145,13 @@ def resolve(tmpl, choose=None):
             return "" if var else x
         if k == "-":
             return x if var else ""
+        if k == "*":
+            return ""                       # never written in the source, always printed by fparser
         return "" if var else ", "
 
     def can_sub(m):
         k, x = m.group(1), m.group(2)
-        return {"~": " ", "+": x, "-": "", ",": ", "}[k]
+        return {"~": " ", "+": x, "-": "", ",": ", ", "*": x}[k]
 
     return _MARK.sub(src_sub, tmpl), _MARK.sub(can_sub, tmpl)
 
@@ -468,7 +471,7 @@ class Gen:
             if c == 4:
                 return "character(len = %s, kind = %s)" % (self.small_int(), r.pick(["1", "ck"]))
             if c == 5:
-                forms = ["character(kind = ck)", "character({+len = }%s, {+kind = }ck)" % r.pick(["10", "2 * (n + 1)", "len(msg)"]),
+                forms = ["character(kind = ck)", "character({*len = }%s, {*kind = }ck)" % r.pick(["10", "2 * (n + 1)", "len(msg)"]),
                          "character({+len = }2 * (n + 1), kind = ck)"]
                 if not self.o.variants:
                     # KIND first is printed LEN first by fparser (a re-ordering the token check C02 would rightly
@@ -584,8 +587,14 @@ class Gen:
             return Stmt("use %s, %s => %s" % (m, self.name(NUM_NAMES), r.pick(["rem1", "rem2"])), "use")
         if c == 4:
             return Stmt("use :: %s" % m, "use")
-        return Stmt("use %s, only:" % m, "use") if r.chance(30) else Stmt(
-            "use, non_intrinsic :: %s, only: operator(.myop.), assignment(=)" % m, "use", nofuse=True)
+        k = r.n(0, 3)
+        if k == 0:
+            return Stmt("use %s, only:" % m, "use")
+        if k == 1:
+            # defined-I/O generic specifications
+            return Stmt("use %s, only: %s" % (m, r.pick(["read(formatted)", "write(unformatted), %s" % self.name(NUM_NAMES),
+                                                         "%s, write(formatted)" % self.name(TYPE_NAMES)])), "use")
+        return Stmt("use, non_intrinsic :: %s, only: operator(.myop.), assignment(=)" % m, "use", nofuse=True)
 
     def _only_items(self):
         r = self.r
@@ -788,8 +797,10 @@ class Gen:
     def simple_exec(self, ctx):
         """One simple executable statement (never a branch-target consumer)."""
         r = self.r
-        c = r.n(0, 30)
+        c = r.n(0, 31)
         S = Stmt
+        if c == 31:
+            c = 0
         if c <= 7:
             return self.assign_stmt()
         if c == 8:
@@ -920,7 +931,24 @@ class Gen:
             return S("if (%s) %s, %s, %s" % (self.expr("num", 1), lab, lab2, lab), "arith_if")
         if c == 29:
             lab = ctx["new_format"]()
+            k = r.n(0, 3)
+            if k == 0:
+                return S("print %s, %s" % (lab, self.io_list()), "print", removable=True)
+            if k == 1:
+                return S("read(5, %s, iostat = ios, iomsg = msg) %s" % (lab, self.io_list(out=False)), "read", removable=True)
             return S("write(6, %s) %s" % (lab, self.io_list()), "write", removable=True)
+        if c == 30:
+            k = r.n(0, 3)
+            if k == 0:
+                return S("inquire(iolength = %s) %s" % (self.name(INT_NAMES), self.io_list(out=False)), "inquire", removable=True)
+            if k == 1:
+                return S("write(unit = lun, rec = %s, iostat = ios) %s" % (self.int_expr(0), self.io_list()), "write", removable=True)
+            if k == 2:
+                return S("read(10, *, size = %s, advance = 'no', eor = %s) %s" % (self.name(INT_NAMES), ctx["new_target"](),
+                                                                                  self.io_list(out=False)), "read")
+            if ctx.get("alt_return"):
+                return S("return %s" % r.pick(["1", "2", self.name(INT_NAMES)]), "return", removable=True)
+            return S("write(*, fmt = '(a)', advance = 'no') %s" % r.pick(STR_LITS), "write", removable=True)
         return self.assign_stmt()
 
     # ------------------------------------------------------------- constructs
@@ -1013,7 +1041,7 @@ class Gen:
             lab = ctx["new_label"]()
             v = self.name(INT_NAMES)
             lsub = self._sub(sub, loop=True, loop_name=nm)
-            opener = S("do %s %s = 1, %s" % (lab, v, self.int_expr(1)), "do_label", cname=nm)
+            opener = S("do %s%s %s = 1, %s" % (lab, r.pick(["", "", ","]), v, self.int_expr(1)), "do_label", cname=nm)
             if r.chance(50) or nm:
                 closer = S("end{~}do%s" % endnm, "end_do", label=lab)
             else:
@@ -1078,10 +1106,17 @@ class Gen:
         elif k == "where":
             arr = self.name(ARR_NAMES)
 
-            def wbody():
+            def wbody(dd=0):
                 out = []
                 for _ in range(r.n(0, 3)):
-                    out.append(S("%s = %s" % (self.name(ARR_NAMES), self.expr("num", 1)), "assign", removable=True))
+                    if dd < 1 and r.chance(15):
+                        out.append(Block("where", S("where (%s /= 0)" % self.name(ARR_NAMES), "where"),
+                                         S("end{~}where", "end_where"), [(None, wbody(dd + 1))]))
+                    elif r.chance(10):
+                        out.append(S("where (%s > 1) %s = 0" % (self.name(ARR_NAMES), self.name(ARR_NAMES)), "where_stmt",
+                                     removable=True))
+                    else:
+                        out.append(S("%s = %s" % (self.name(ARR_NAMES), self.expr("num", 1)), "assign", removable=True))
                 return out
             segs = [(None, wbody())]
             if r.chance(40):
@@ -1135,7 +1170,13 @@ class Gen:
         else:
             opener = "type%s%s" % (r.pick([" :: ", " "]), nm)
         body = []
-        if r.chance(15) and not attrs:
+        if r.chance(12) and "bind(c)" not in attrs:
+            # parameterised derived type
+            opener = opener + "(kp, np)" if "::" in opener or True else opener
+            body.append(S("integer, kind :: kp = %s" % r.pick(["4", "kind(1.0)"]), "type_param"))
+            body.append(S("integer, len :: np", "type_param"))
+            body.append(S("real(kind = kp) :: pv(np)", "type_decl"))
+        elif r.chance(15) and not attrs:
             body.append(S("sequence", "sequence"))
         elif r.chance(15):
             body.append(S("private", "private"))
@@ -1200,7 +1241,7 @@ class Gen:
             spec = " operator(%s)" % r.pick([".myop.", "+", "==", "//", "/", ".lt."])
             nofuse = True
         elif c == 4:
-            spec = " assignment(=)"
+            spec = r.pick([" assignment(=)", " read(formatted)", " write(unformatted)"])
             nofuse = True
         else:
             spec = None
@@ -1324,7 +1365,7 @@ class Gen:
                 suffix = " bind(c)" if dummies else ""
             head = "%ssubroutine %s%s%s" % ("".join(p + " " for p in prefixes), nm, args, suffix)
             kw = "subroutine"
-        sctx = self._sub(ctx, dummies=bool([d for d in dummies if d != "*"]), module=False, subprogram=True,
+        sctx = self._sub(ctx, alt_return=("*" in dummies), dummies=bool([d for d in dummies if d != "*"]), module=False, subprogram=True,
                          labels=[0], loop=False, loop_name=None, cnames=())
         spec = self.spec_part(sctx)
         segs = [(None, spec)]
